@@ -20,7 +20,7 @@ MODE = param("mode", "layout")
 NG = 10          # gap variables
 NC = 5           # indentation levels
 
-_items = dict(skel.programs(LANG, TIER))[LABEL] if LABEL else None
+_items = (skel.extra_programs(LANG)[LABEL] if LABEL.startswith("x-") else dict(skel.programs(LANG, TIER))[LABEL]) if LABEL else None
 SK = skel.Skeleton(LANG, _items, LABEL, comments=("col1" if LABEL.startswith("cmt1-") else "hostile" if LABEL.startswith("cmtx-") else LABEL.startswith("cmt-"))) if LABEL else None
 LANGUAGE = capture.language(LANG)
 FAM = skel.LANGS[LANG]["fam"]
